@@ -7,6 +7,7 @@
 //      variant 2: FCDeque<int, boost::container::deque<int>>, elimination off   3: the same, elimination on
 //      prefill k: the main thread pushes k values 900, 901, ... (push_back) before the workers start
 //   thread operations: [1; v] push_front v   [2; v] push_back v   [3] pop_front   [4] pop_back
+//                      [5; v] push_front( T&& ) (request word op_push_front_move)   [6; v] push_back( T&& ) (op_push_back_move)
 //
 // Output per case: "case <id>", the client events only ("<tid> ev inv <op> [v]" / "<tid> ev res <result>", the
 // prefill operations appear as thread 99), "endcase <finished|fuel>", then
@@ -66,6 +67,8 @@ static void run_case( vcase::Case const& c )
                 switch ( op[0] ) {
                 case 1: vcase::emitf( "inv push_front %ld", v ); dq.push_front( v ); vcase::emitf( "res true" ); break;
                 case 2: vcase::emitf( "inv push_back %ld", v ); dq.push_back( v ); vcase::emitf( "res true" ); break;
+                case 5: vcase::emitf( "inv push_front %ld", v ); dq.push_front( std::move( v )); vcase::emitf( "res true" ); break;
+                case 6: vcase::emitf( "inv push_back %ld", v ); dq.push_back( std::move( v )); vcase::emitf( "res true" ); break;
                 case 3: { vcase::emitf( "inv pop_front" ); int x = -1; bool b = dq.pop_front( x ); if ( b ) vcase::emitf( "res some %ld", x ); else vcase::emitf( "res none" ); break; }
                 case 4: { vcase::emitf( "inv pop_back" ); int x = -1; bool b = dq.pop_back( x ); if ( b ) vcase::emitf( "res some %ld", x ); else vcase::emitf( "res none" ); break; }
                 }
